@@ -93,6 +93,48 @@ def stub_source(repo):
     out.append("size_t verif_c09_slice(void) { return SLICE; }")
     out.append(f"size_t verif_c09_slice_count(size_t item_size) {{ {mc.group(0)} return slice_count; }}")
     out.append(f"size_t verif_c09_slice_remainder(size_t item_size) {{ {mr.group(0)} return remainder; }}")
+    # ---- index / count guards and byte arithmetic of the inline functions (array_list.inl)
+    inl = _strip_comments(open(os.path.join(repo, "include", "aws", "common", "array_list.inl")).read())
+
+    def fields(t):
+        return (t.replace("aws_array_list_length(list)", "list_length").replace("list->length", "list_length")
+                 .replace("list->item_size", "list_item_size"))
+
+    def first_guard(fn):
+        _, b = _function_text(inl, fn)
+        b = fields(_drop_contract_macros(b))
+        m = re.search(r"\bif\s*\(([^{};]*?)\)\s*\{", b)
+        if not m:
+            raise GenError(f"{fn}: no leading `if (<guard>) {{` found")
+        return _no_list(m.group(1), fn + " guard"), b
+
+    g, pbody = first_guard("aws_array_list_pop_front_n")
+    if "aws_array_list_clear" not in pbody[pbody.find(g):pbody.find(g) + 200]:
+        raise GenError("aws_array_list_pop_front_n: the first guard is no longer the pop-everything test")
+    out.append(f"\nbool verif_c09_pop_front_n_all(size_t list_item_size, size_t list_length, size_t n) {{ return ({g}); }}")
+    exprs = {}
+    for nm in ("popping_bytes", "remaining_items", "remaining_bytes"):
+        m = re.search(r"size_t\s+" + nm + r"\s*=\s*([^;]*);", pbody)
+        if not m:
+            raise GenError(f"aws_array_list_pop_front_n: `size_t {nm} = …;` not found")
+        exprs[nm] = _no_list(m.group(1), "aws_array_list_pop_front_n " + nm)
+    m = re.search(r"\bif\s*\(([^{};]*?)\)\s*\{\s*size_t\s+popping_bytes", pbody)
+    if not m:
+        raise GenError("aws_array_list_pop_front_n: `if (<n > 0>) { size_t popping_bytes` not found")
+    out.append(f"bool verif_c09_pop_front_n_some(size_t list_item_size, size_t list_length, size_t n) {{ return ({m.group(1)}); }}")
+    out.append(f"size_t verif_c09_pop_front_n_popping(size_t list_item_size, size_t list_length, size_t n) {{ return ({exprs['popping_bytes']}); }}")
+    out.append("size_t verif_c09_pop_front_n_remaining(size_t list_item_size, size_t list_length, size_t n) { "
+               f"size_t popping_bytes = {exprs['popping_bytes']}; size_t remaining_items = {exprs['remaining_items']}; "
+               f"size_t remaining_bytes = {exprs['remaining_bytes']}; return remaining_bytes; }}")
+    out.append("size_t verif_c09_pop_front_n_length(size_t list_item_size, size_t list_length, size_t n) { "
+               f"size_t remaining_items = {exprs['remaining_items']}; return remaining_items; }}")
+    for fn, stub in (("aws_array_list_get_at", "get_at_ok"), ("aws_array_list_get_at_ptr", "get_at_ptr_ok")):
+        g, _ = first_guard(fn)
+        out.append(f"bool verif_c09_{stub}(size_t list_length, size_t index) {{ return ({g}); }}")
+    g, eb = first_guard("aws_array_list_erase")
+    if not re.search(r"const\s+size_t\s+length\s*=\s*list_length\s*;", eb):
+        raise GenError("aws_array_list_erase: `const size_t length = aws_array_list_length(list);` not found")
+    out.append(f"bool verif_c09_erase_bad_index(size_t length, size_t index) {{ return ({g}); }}")
     return "\n".join(out) + "\n", me.group(0)
 
 
@@ -178,6 +220,14 @@ LEAN_NAMES = {
     "verif_c09_slice": ("slice", "`enum { SLICE = … }` of `aws_array_list_mem_swap`"),
     "verif_c09_slice_count": ("slice_count", "`slice_count` of `aws_array_list_mem_swap`"),
     "verif_c09_slice_remainder": ("slice_remainder", "`remainder` of `aws_array_list_mem_swap`"),
+    "verif_c09_pop_front_n_all": ("pop_front_n_all", "the pop-everything guard of `aws_array_list_pop_front_n`"),
+    "verif_c09_pop_front_n_some": ("pop_front_n_some", "the second guard of `aws_array_list_pop_front_n`"),
+    "verif_c09_pop_front_n_popping": ("pop_front_n_popping", "`popping_bytes` of `aws_array_list_pop_front_n`"),
+    "verif_c09_pop_front_n_remaining": ("pop_front_n_remaining", "`remaining_bytes` of `aws_array_list_pop_front_n`"),
+    "verif_c09_pop_front_n_length": ("pop_front_n_length", "`remaining_items` (the new length) of `aws_array_list_pop_front_n`"),
+    "verif_c09_get_at_ok": ("get_at_ok", "index guard of `aws_array_list_get_at`"),
+    "verif_c09_get_at_ptr_ok": ("get_at_ptr_ok", "index guard of `aws_array_list_get_at_ptr`"),
+    "verif_c09_erase_bad_index": ("erase_bad_index", "index guard of `aws_array_list_erase`"),
 }
 ORDER = list(LEAN_NAMES)
 
@@ -215,12 +265,15 @@ def generate(repo, cfg_inc, math_meta=None):
         chunks.append(f"/-- {doc} -/\n{text}")
         meta[lean_name] = info
     want = {"calc_necessary_size": ("status", 3), "needs_growth": ("value", 2), "growth_new_size": ("value", 2),
-            "growth_overflowed": ("value", 2), "slice": ("value", 0), "slice_count": ("value", 1), "slice_remainder": ("value", 1)}
+            "growth_overflowed": ("value", 2), "slice": ("value", 0), "slice_count": ("value", 1), "slice_remainder": ("value", 1),
+            "pop_front_n_all": ("value", 3), "pop_front_n_some": ("value", 3), "pop_front_n_popping": ("value", 3),
+            "pop_front_n_remaining": ("value", 3), "pop_front_n_length": ("value", 3), "get_at_ok": ("value", 2),
+            "get_at_ptr_ok": ("value", 2), "erase_bad_index": ("value", 2)}
     for k, (kind, np) in want.items():
         if meta[k]["kind"] != kind or len(meta[k]["params"]) != np:
             raise GenError(f"{k}: unexpected shape {meta[k]['kind']} / {len(meta[k]['params'])} parameters")
     out = ["import AwsVerif.Model.CSem", "import AwsVerif.Gen.Math",
-           "/-! GENERATED by gen/arraylist_gen.py from /repo's source/array_list.c — do not edit. -/",
+           "/-! GENERATED by gen/arraylist_gen.py from /repo's source/array_list.c and include/aws/common/array_list.inl — do not edit. -/",
            "set_option linter.unusedVariables false", "namespace AwsVerif.Gen.ArrayListFns", "open AwsVerif", ""]
     out += chunks
     out.append("end AwsVerif.Gen.ArrayListFns\n")
